@@ -91,7 +91,7 @@ func applySpec(spec *tls.ClientHelloSpec, seed uint64) (res string) {
 
 // ---------- building hellos ----------
 
-func recordOf(msg []byte) []byte {
+func recordOf_c07(msg []byte) []byte {
 	out := []byte{22, 3, 1, byte(len(msg) >> 8), byte(len(msg))}
 	return append(out, msg...)
 }
@@ -101,7 +101,7 @@ func helloFromID(id tls.ClientHelloID, seed uint64, sni string) ([]byte, error) 
 	if err := uc.BuildHandshakeState(); err != nil {
 		return nil, err
 	}
-	return recordOf(uc.HandshakeState.Hello.Raw), nil
+	return recordOf_c07(uc.HandshakeState.Hello.Raw), nil
 }
 
 func helloFromSpec(spec *tls.ClientHelloSpec, seed uint64, sni string) (raw []byte, err error) {
@@ -117,7 +117,7 @@ func helloFromSpec(spec *tls.ClientHelloSpec, seed uint64, sni string) (raw []by
 	if err := uc.BuildHandshakeState(); err != nil {
 		return nil, err
 	}
-	return recordOf(uc.HandshakeState.Hello.Raw), nil
+	return recordOf_c07(uc.HandshakeState.Hello.Raw), nil
 }
 
 type rawExt struct {
@@ -1482,7 +1482,7 @@ func jsonBatch(r *Rng, b int, tier string) []string {
 	return out
 }
 
-func execJSON(in KV) string {
+func execJSON_c07(in KV) string {
 	toks := strings.Split(in["doc"], ",")
 	p := 0
 	d := parseTokens(toks, &p)
@@ -1548,5 +1548,5 @@ func init() {
 	imp := &batchGen{fill: impBatch}
 	register(&Family{Name: "imp", Timeout: 10 * time.Second, Exec: guarded(execImp), Gen: imp.gen})
 	js := &batchGen{fill: jsonBatch}
-	register(&Family{Name: "json", Timeout: 10 * time.Second, Exec: guarded(execJSON), Gen: js.gen})
+	register(&Family{Name: "json", Timeout: 10 * time.Second, Exec: guarded(execJSON_c07), Gen: js.gen})
 }
